@@ -49,6 +49,8 @@ func genC12(r *simrt.Rand, tier string, idx uint64) *Plan {
 		p.Conns[i].NoCopy = r.Chance(1, 4)
 		p.Conns[i].DirectSet = genDirectSet(r)
 	}
+	// (unary handlers here look at their arguments only while they run, which NoCopy allows
+	// for every codec)
 	big := bigBudget(p)
 	nclients := 1 + r.Intn(4)
 	for c := 0; c < nclients; c++ {
